@@ -36,22 +36,23 @@ Definition max_list (l : list Z) : option Z :=
 
 (* ---------- SUM ---------- *)
 
-(* `sum += value` on usize.  A debug build (overflow-checks on) panics when the accumulator
-   would reach 2^64; a release build wraps modulo 2^64. *)
+(* get_buffer_sum:  `let mut sum: usize = 0; ... sum = sum.saturating_add(value);`
+   A total beyond usize::MAX = 2^64 - 1 stays at 2^64 - 1.  saturating_add behaves the same with and
+   without overflow-checks, so the loop no longer depends on the build: the `build` parameter is
+   kept only because get_aggregate_value_b is addressed with it from outside (checkers, differential
+   testers); AggProofs.sum_loop_build proves that it is irrelevant.
+   (Before the fix the loop was `sum += value`: Panic under Debug, wrap modulo 2^64 under Release.) *)
 Inductive build := Debug | Release.
 
 Definition two64 : N := 18446744073709551616.
 
+(* usize::saturating_add *)
+Definition sat_add (a v : N) : N := N.min (a + v) (two64 - 1).
+
 Fixpoint sum_loop (b : build) (acc : N) (vals : list N) : res N :=
   match vals with
   | [] => Ok acc
-  | v :: r =>
-      let a := acc + v in
-      if a <? two64 then sum_loop b a r
-      else match b with
-           | Debug => Panic (s "attempt to add with overflow"%string)
-           | Release => sum_loop b (a mod two64) r
-           end
+  | v :: r => sum_loop b (sat_add acc v) r
   end.
 
 Definition usizes (buf : buffer) (key : str) : list N := filter_map parse_usize (column buf key).
@@ -90,7 +91,7 @@ Definition variance_f : N -> nat -> nat -> list str -> float :=
 (* let n = if size == 1 { 1 } else { size - 1 } *)
 Definition samp_n (size : nat) : nat := if Nat.eqb size 1 then 1%nat else (size - 1)%nat.
 
-(* get_variance: the mean is computed first (its sum may overflow) *)
+(* get_variance: the mean is computed first (from the saturating sum) *)
 Definition get_variance (b : build) (buf : buffer) (key : str) (n : nat) : res float :=
   do sm <- get_buffer_sum b buf key ;;
   Ok (variance_f sm (length buf) n (column buf key)).
@@ -131,7 +132,7 @@ Definition get_aggregate_value_b (b : build) (f : option Function) (buf : buffer
   | _ => Ok (match default with Some v => v | None => [] end)
   end.
 
-(* The model asked for: overflow of the usize accumulator is a Panic (debug semantics). *)
+(* Debug and Release coincide since get_buffer_sum saturates (AggProofs.aggregate_build_irrelevant). *)
 Definition get_aggregate_value := get_aggregate_value_b Debug.
 
 (* ---------- GROUP BY : partition_output_buffer ---------- *)
